@@ -87,7 +87,7 @@ Proof.
     - unfold rmss_ok in *. rewrite F5, G1. exact Hrm.
     - unfold synfw_ok in *. rewrite F7, G3. intros X. specialize (Hfw X).
       destruct F11 as [->| ->]; [rewrite G6; exact Hfw|auto]. }
-  split; [unfold rx_ok in *; rewrite F6, F8, F10, G2, G4, G5; exact Hrx|].
+  split; [unfold rx_ok in *; rewrite F6, F8, G2, G4; exact Hrx|].
   split; [unfold ka_pos in *; rewrite Eka; exact Hka|].
   split; [rewrite Ht1, G7; exact Htup|].
   split; [rewrite F1, F3, F5, F9, G1, G8, G9, G10; auto|].
